@@ -154,6 +154,15 @@ def run_driver(lines, timeout=3600):
 # canonical JSON, shrinking
 # ---------------------------------------------------------------------------------------------
 
+def scale(n):
+    """thorough-tier sizes are multiplied by VERIF_SCALE (default 1) for long soak runs"""
+    try:
+        f = float(os.environ.get('VERIF_SCALE', '1') or 1)
+    except ValueError:
+        f = 1.0
+    return max(1, int(n * f))
+
+
 def canon(x):
     return json.dumps(x, sort_keys=True, ensure_ascii=False)
 
